@@ -717,3 +717,17 @@ func (st *State) typeFact(term string, t types.Type) {
 	}
 	st.assume(sImp("(not (= "+term+" null))", sAnd(cs...)))
 }
+
+
+// sliceFacts: 0 <= len <= cap, nil base implies empty, for every slice inside v.
+func (st *State) sliceFacts(v Val) {
+	switch v.K {
+	case KSlice:
+		st.assume(sAnd(sLe("0", v.Len), sLe(v.Len, v.Cap), sLe("0", v.Off)))
+		st.assume(sImp(sEq(v.Base, "null"), sAnd(sEq(v.Len, "0"), sEq(v.Cap, "0"))))
+	case KStruct, KTuple, KArr:
+		for _, f := range v.F {
+			st.sliceFacts(f)
+		}
+	}
+}
